@@ -880,6 +880,19 @@ add("E-global-10-range-loops-as-while-loops", ALL_PROPS, "*", _package_transform
     note="in kernels without prange: for i in range(n) -> i = 0; while i < n: ...; i += 1")
 add("E-global-11-min-max-as-conditional-expressions", ALL_PROPS, "*", _package_transform(lambda t: _MinMaxToCond().visit(t)), None, kind="E",
     note="x = min(a, b) -> x = a if a < b else b (and max)")
+class _PadFunctions(_ast.NodeTransformer):
+    """Every function gets a dead local assignment and an assertion that cannot fail as its first statements (after the docstring)."""
+
+    def visit_FunctionDef(self, f):
+        self.generic_visit(f)
+        pre = _ast.parse("_zz_unused = 0\nassert _zz_unused == 0").body
+        i = 1 if f.body and isinstance(f.body[0], _ast.Expr) and isinstance(f.body[0].value, _ast.Constant) and isinstance(f.body[0].value.value, str) else 0
+        f.body = f.body[:i] + pre + f.body[i:]
+        return f
+
+
+add("E-global-12-dead-local-and-assert-in-every-function", ALL_PROPS, "*", _package_transform(lambda t: _PadFunctions().visit(t)), None, kind="E",
+    note="every function starts with `_zz_unused = 0; assert _zz_unused == 0`")
 add("E-global-08-rename-kernel-parameters", ALL_PROPS, "*", _rename_kernel_params, None, kind="E",
     note="every parameter of every @njit kernel renamed (call sites are positional)")
 add("E-global-09-rename-private-functions", ALL_PROPS, "*", _rename_private_functions, None, kind="E",
